@@ -73,14 +73,19 @@ def _mro(ex):
 def render(cfg, src):
     from tornado import template
     _silence()
-    files = {name: text_of(cps) for name, cps in src.items()}
+    # physical layout of the loader (cfg.paths: logical file -> path components; default: flat names) + decoy files
+    paths = {name: "/".join(text_of(c) for c in comps) for name, comps in (cfg.get("paths") or {}).items()}
+    files = {paths.get(name, name): text_of(cps) for name, cps in src.items()}
+    for d in cfg.get("decoys") or []:
+        files["/".join(text_of(c) for c in d["path"])] = text_of(d["text"])
+    logical = {v: k for k, v in paths.items()}
     ws = cfg.get("ws", "default")
     loader = template.DictLoader(files, autoescape=None if cfg["ae"] == "None" else cfg["ae"],
                                  whitespace=None if ws == "default" else ws)
     try:
-        t = loader.load("main")
+        t = loader.load(paths.get("main", "main"))
     except template.ParseError as ex:
-        return {"kind": "parse", "file": ex.filename, "line": ex.lineno}
+        return {"kind": "parse", "file": logical.get(ex.filename, ex.filename), "line": ex.lineno}
     except RecursionError as ex:
         return {"kind": "exc", "mro": _mro(ex), "phase": "compile"}
     except Exception as ex:
